@@ -43,11 +43,18 @@ def step' (line : String) : String :=
   | ["D", chunks] => encChars (utf8.decodeIncremental ((splitNE chunks ",").map decChunk))
   | ["T", spec] =>
     -- isTty,fg,echo,icanon,vmin,vtime,raise  ->  touches,duringCbreak,restored,raised
-    match spec.splitOn "," with
-    | [it, fg, ec, ic, vm, vt, rz] =>
+    match (match spec.splitOn "," with
+           | [it, fg, ec, ic, vm, vt, rz] => [it, fg, ec, ic, vm, vt, rz, "0"]
+           | l => l) with
+    | [it, fg, ec, ic, vm, vt, rz, bd] =>
       let t : TtyEnv := { isTty := b it, foreground := b fg,
                           attrs := { echo := b ec, icanon := b ic, vmin := vm.toNat?.getD 0, vtime := vt.toNat?.getD 0, rest := 0 } }
-      let r := characterBuffered (stdSetcbreak id) (fun a => (a, b rz)) t
+      -- what the body does to the terminal while the bracket is open: bit 1 ECHO on, bit 2 ICANON on, bit 4 VMIN/VTIME := 5/2
+      let m := bd.toNat?.getD 0
+      let edit (a : TtyAttrs) : TtyAttrs :=
+        { a with echo := a.echo || (m % 2 == 1), icanon := a.icanon || (m / 2 % 2 == 1),
+                 vmin := if m / 4 % 2 == 1 then 5 else a.vmin, vtime := if m / 4 % 2 == 1 then 2 else a.vtime }
+      let r := characterBuffered (stdSetcbreak id) (fun a => (edit a, b rz)) t
       let sh (x : Bool) : String := if x then "1" else "0"
       ",".intercalate [sh (touches t), sh (cbreakAlreadySet r.during), sh (r.after == t.attrs), sh r.raised]
     | _ => "bad-tty"
